@@ -442,13 +442,12 @@ func c20Run(c *core.Ctx, raw json.RawMessage) {
 	}
 	d.After = []func(){view.observe, guardObs, rstObs}
 
-	ldr := hxSettle(d, view, 30*time.Second)
-	if ldr == nil || !execOn(s, ldr, "CREATE TABLE t (id INTEGER PRIMARY KEY AUTOINCREMENT, tag TEXT NOT NULL)") ||
-		!execOn(s, ldr, "INSERT INTO t(id, tag) VALUES(1, 'init')") {
+	if !hxSetup(d, view, "CREATE TABLE IF NOT EXISTS t (id INTEGER PRIMARY KEY AUTOINCREMENT, tag TEXT NOT NULL)",
+		"INSERT OR IGNORE INTO t(id, tag) VALUES(1, 'init')") {
 		c.Discard("schema-failed")
 		return
 	}
-	hxSettle(d, view, 30*time.Second)
+	var ldr *node.Node
 
 	present := []string{"init"} // tags known to be in the table (definite)
 	var absent []string         // tags known never to be applied (definite)
